@@ -80,8 +80,53 @@ func genC06() {
 			return true
 		})
 	}
+	// shape of the loop of (*router).find: labels in order, goto targets in order, the arguments of the
+	// backtrackToNextNodeKind calls in order, and the variables the closure decrements (restores) in order
+	var labelsF, gotos, btArgs, restores []string
+	for _, d := range f.Decls {
+		fd, ok := d.(*ast.FuncDecl)
+		if !ok || fd.Name.Name != "find" {
+			continue
+		}
+		ast.Inspect(fd, func(n ast.Node) bool {
+			switch x := n.(type) {
+			case *ast.LabeledStmt:
+				labelsF = append(labelsF, x.Label.Name)
+			case *ast.BranchStmt:
+				if x.Tok == token.GOTO && x.Label != nil {
+					gotos = append(gotos, x.Label.Name)
+				}
+			case *ast.CallExpr:
+				if id, ok := x.Fun.(*ast.Ident); ok && id.Name == "backtrackToNextNodeKind" && len(x.Args) == 1 {
+					if a, ok := x.Args[0].(*ast.Ident); ok {
+						btArgs = append(btArgs, a.Name)
+					}
+				}
+			case *ast.AssignStmt:
+				if x.Tok == token.SUB_ASSIGN && len(x.Lhs) == 1 {
+					if id, ok := x.Lhs[0].(*ast.Ident); ok {
+						restores = append(restores, id.Name)
+					}
+				}
+			case *ast.IncDecStmt:
+				if x.Tok == token.DEC {
+					if id, ok := x.X.(*ast.Ident); ok {
+						restores = append(restores, id.Name)
+					}
+				}
+			}
+			return true
+		})
+	}
+	if len(labelsF) == 0 || len(btArgs) == 0 {
+		die("tree.go: labels / backtrack calls of find not found")
+	}
 	var b strings.Builder
 	b.WriteString("namespace Hertz.Gen.Route\n\n")
+	fmt.Fprintf(&b, "/-- labels of `(*router).find`, in source order -/\ndef findLabels : List String := [%s]\n\n", quoteJoin(labelsF))
+	fmt.Fprintf(&b, "/-- `goto` targets of `find`, in source order -/\ndef findGotos : List String := [%s]\n\n", quoteJoin(gotos))
+	fmt.Fprintf(&b, "/-- arguments of the `backtrackToNextNodeKind` calls, in source order -/\ndef findBacktrackArgs : List String := [%s]\n\n", quoteJoin(btArgs))
+	fmt.Fprintf(&b, "/-- variables decremented in `find` (the restores of the closure), in source order -/\ndef backtrackRestores : List String := [%s]\n\n", quoteJoin(restores))
 	fmt.Fprintf(&b, "/-- the `kind` iota block of `pkg/route/tree.go`, in order -/\ndef kinds : List String := [%s]\n\n", quoteJoin(kinds))
 	fmt.Fprintf(&b, "/-- `paramLabel` -/\ndef paramLabel : UInt8 := %d\n\n/-- `anyLabel` -/\ndef anyLabel : UInt8 := %d\n\n", labels["paramLabel"], labels["anyLabel"])
 	fmt.Fprintf(&b, "/-- `slash` -/\ndef slash : List UInt8 := %s\n\n", byteList(sl))
